@@ -593,3 +593,7 @@ impl<T: ?Sized + Debug> Debug for GcRefCell<T> {
         }
     }
 }
+
+#[cfg(kani)]
+#[path = "/verif/kani/gc/cell.rs"]
+mod verif_kani;
